@@ -25,7 +25,10 @@ class Builtins:
     def pi_value(self):
         """pi as a symbolic real constant constrained to a rational enclosure (trigonometry is uninterpreted anyway)"""
         pi = z3.Real("pi")
-        self.ctx.assume(z3.And(pi > z3.RealVal("3.14159265358979"), pi < z3.RealVal("3.14159265358980")))
+        f = z3.And(pi > z3.RealVal("3.14159265358979"), pi < z3.RealVal("3.14159265358980"))
+        if "pi" not in self.ctx.literals:
+            self.ctx.literals.add("pi")
+            self.ctx.add_definition(f)
         return VReal(pi)
 
     # ------------------------------------------------------------------ dict / set helpers
